@@ -3,14 +3,13 @@ import PyaModel.Generated.OpTables
 /-!
 # Props/C19 — operations on known objects agree with performing them
 
-Property theorems only. Models: `Ops.getitem`, `Ops.binop`, `Ops.attrFallback` (Core/Ops.lean).
-Specs: `Ops.elemAt`/`Ops.expand` (CPython indexing of every sequence a member list stands for),
-`Ops.cpyBinop` (CPython's dunder dispatch), `Ops.agree` (the property on one row of the operation
-table) — Spec/OpsSpec.lean. The operation table `Ops.opTable` is regenerated from the live tree and
+Property theorems only. Models: `getitem`, `binop`, `attrFallback` (Core/Ops.lean).
+Specs: `elemAt`/`expand` (CPython indexing of every sequence a member list stands for),
+`cpyBinop` (CPython's dunder dispatch), `agree` (the property on one row of the operation
+table) — Spec/OpsSpec.lean. The operation table `opTable` is regenerated from the live tree and
 from CPython on every run (Generated/OpTables*.lean).
 -/
-namespace Pya
-open Ops
+namespace Pya.C19
 
 /-! ## A. literal subscripts (all lengths, all indices) -/
 
@@ -48,82 +47,43 @@ theorem getitem_error_sound {α : Type} (typ : SeqTyp) (ms : List (Bool × α)) 
     | none => rfl
     | some y => simp [he] at h
 
-/-- **Soundness of the inferred element type, full statement** (not asserted: false for the pinned
-tree, see the witness): whatever the lengths of the variadic parts, the element at `key` is covered
-by the inferred result. -/
-def GetitemSound {α : Type} [BEq α] (get : SeqTyp → List (Bool × α) → Int → GetRes α)
-    (typ : SeqTyp) (ms : List (Bool × α)) (k : Int) : Prop :=
-  ∀ (ns : List Nat) (x : α), elemAt (expand ms ns) k = some x → (get typ ms k).covers ms x = true
-
-/-- **C19/A with the one-token repair `index_from_back = -key.val - 1`: full strength.** For every
-member list (fixed and variadic members in any arrangement, any length), both `tuple` and `list`,
-every int key and every expansion of the variadic parts, the element CPython finds at `key` is
-covered by the inferred result. -/
-theorem getitemFixed_sound {α : Type} [BEq α] [LawfulBEq α] (typ : SeqTyp) (ms : List (Bool × α)) (k : Int) :
-    GetitemSound getitemFixed typ ms k := by
-  intro ns x h
+/-- **Soundness of the inferred element type, full strength.** For every member list (fixed and
+variadic members in any arrangement, any length), both `tuple` and `list`, every int key (any sign)
+and every expansion of the variadic parts, the element CPython finds at `key` is covered by the
+inferred result (the member itself, or the union of all members). Holds for the code as it is since
+the repair of `index_from_back` (/repo 07b1f6d); before, it failed on `negIdxVariadic` inputs. -/
+theorem getitem_variadic_sound {α : Type} [BEq α] [LawfulBEq α] (typ : SeqTyp) (ms : List (Bool × α))
+    (k : Int) (ns : List Nat) (x : α) (h : elemAt (expand ms ns) k = some x) :
+    (getitem typ ms k).covers ms x = true := by
   cases hm : memberSequence ms with
   | none =>
-    simp only [getitemFixed, hm]
+    simp only [getitem, hm]
     by_cases hk : k ≥ 0
     · simp only [hk, if_true]; exact front_sound ms k hk ns x h
     · simp only [hk, if_false]; exact back_sound ms k hk ns x h
   | some xs =>
     obtain ⟨rfl, hno⟩ := memberSequence_some ms xs hm
     rw [expand_noMany ms hno] at h
-    rw [getitemFixed_noMany typ ms hno k, h]
-    simp [GetRes.covers]
-
-/-- **C19/A for the code as it is: partial.** Outside the exception class `negIdxVariadic`
-(negative key, a variadic member, and a fixed suffix longer than `-key + 1`) the inferred result
-covers the element at `key` of every expansion. -/
-theorem getitem_variadic_sound_partial {α : Type} [BEq α] [LawfulBEq α] (typ : SeqTyp)
-    (ms : List (Bool × α)) (k : Int) (hD : D19_negIdxVariadic ms k = false) :
-    GetitemSound getitem typ ms k := by
-  intro ns x h
-  cases hm : memberSequence ms with
-  | none =>
-    have hmany : hasMany ms = true := (memberSequence_none_iff ms).mp hm
-    simp only [getitem, hm]
-    by_cases hk : k ≥ 0
-    · simp only [hk, if_true]; exact front_sound ms k hk ns x h
-    · simp only [hk, if_false]
-      cases hs : scan (-k + 1).toNat 0 ms.reverse with
-      | none => exact covers_fallback ms ns k x h
-      | some m =>
-        exfalso
-        have hlt := scan_some_lt_takeWhile _ 0 ms.reverse m hs (by omega)
-        rw [Nat.sub_zero] at hlt
-        have hDt : D19_negIdxVariadic ms k = true := by
-          simp only [D19_negIdxVariadic, hmany, suffixLen, Bool.true_and, Bool.and_eq_true,
-            decide_eq_true_eq]
-          exact ⟨by omega, decide_eq_true hlt⟩
-        rw [hDt] at hD
-        cases hD
-  | some xs =>
-    obtain ⟨rfl, hno⟩ := memberSequence_some ms xs hm
-    rw [expand_noMany ms hno] at h
     rw [getitem_noMany typ ms hno k, h]
     simp [GetRes.covers]
 
-/-- `t: tuple[C0, *tuple[C1, ...], C2, C3, C4]` — the members of the witness. -/
+/-- `t: tuple[C0, *tuple[C1, ...], C2, C3, C4]` — the former `negIdxVariadic` witness. -/
 def witnessMembers : List (Bool × Nat) := [(false, 0), (true, 1), (false, 2), (false, 3), (false, 4)]
 
-/-- **Witness for `negIdxVariadic`**: `t[-1]` is inferred as `C2` (two places too early), the real
-last element is a `C4`: the full statement is false for the code as it is. -/
-theorem getitem_variadic_sound_witness : ¬ GetitemSound getitem .tuple witnessMembers (-1) := by
-  intro h
-  have := h [0] 4 (by decide)
-  revert this
-  decide
+/-- **Regression for the repaired off-by-two** (`index_from_back = -key.val + 1`, fixed by 07b1f6d):
+on the former witness `t[-1]` is now `C4`, the real last element of every expansion (it used to be
+`C2`), `t[-3]` is `C2`, and `t[-4]` gives up (the variadic part is reached). -/
+theorem getitem_regression_negIdxVariadic :
+    getitem .tuple witnessMembers (-1) = .member 4 ∧
+    getitem .tuple witnessMembers (-3) = .member 2 ∧
+    getitem .tuple witnessMembers (-4) = .fallback ∧
+    elemAt (expand witnessMembers [0]) (-1) = some 4 ∧
+    elemAt (expand witnessMembers [3]) (-1) = some 4 := by decide
 
-example : D19_negIdxVariadic witnessMembers (-1) = true := by decide
-example : getitem .tuple witnessMembers (-1) = .member 2 := by decide
-example : getitemFixed .tuple witnessMembers (-1) = .member 4 := by decide
-/-- non-vacuity of `¬ D`: a variadic tuple indexed from the back where the scan gives up (sound). -/
-example : D19_negIdxVariadic [(false, 0), (true, 1), (false, 2)] (-1) = false ∧
-    getitem .tuple [(false, 0), (true, 1), (false, 2)] (-1) = .fallback := by decide
-example : D19_negIdxVariadic witnessMembers 0 = false ∧ getitem .tuple witnessMembers 0 = .member 0 := by decide
+example : getitem .list witnessMembers (-2) = .member 3 := by decide
+example : getitem .tuple [(false, 0), (true, 1), (false, 2)] (-1) = .member 2 ∧
+    getitem .tuple [(false, 0), (true, 1), (false, 2)] (-2) = .fallback := by decide
+example : getitem .tuple witnessMembers 0 = .member 0 ∧ getitem .tuple witnessMembers 1 = .fallback := by decide
 example : hasMany [(false, 5), (false, 6)] = false ∧ getitem .tuple [(false, 5), (false, 6)] (-2) = .member 5 ∧
     getitem .tuple [(false, 5), (false, 6)] 2 = .error ∧ getitem .list [(false, 5), (false, 6)] 2 = .fallback := by decide
 
@@ -275,4 +235,4 @@ theorem table_witness_classLevelDescriptor :
 example : D19 (r 0 0 2 4 1 1 253 0 1 12 0 1 12) = false ∧ agree (r 0 0 2 4 1 1 253 0 1 12 0 1 12) = true := by decide
 example : D19 (r 0 0 2 15 1 5 4 1 0 0 2 0 0) = false ∧ agree (r 0 0 2 15 1 5 4 1 0 0 2 0 0) = true := by decide
 
-end Pya
+end Pya.C19
